@@ -36,7 +36,9 @@ class Mon(object):
 
 
 BODIES = corpus.update_bodies()
-EXTRA = [['raw', 4, 1], ['raw', 3, 1], ['raw', 3, 0], ['raw', 5, 3], ['raw', 128, 5], ['raw', 1, 5], ['raw', 2, 3],
+NLIVE = 14      # the first NLIVE entries of EXTRA need a live connection only, the others an Established session
+EXTRA = [['rrfam', 2, 1, 5], ['rrfam', 1, 128, 128], ['rrfam', 25, 70, 5], ['rrfam', 65535, 255, 128],
+         ['raw', 4, 1], ['raw', 3, 1], ['raw', 3, 0], ['raw', 5, 3], ['raw', 128, 5], ['raw', 1, 5], ['raw', 2, 3],
          ['notif', 'other', 6, 2, '03fffefd'], ['notif', 'other', 6, 4, 'c3'], ['notif', 'other', 7, 1, ''],
          ['rest-update'], ['rest-rr'], ['rest-bin'], ['queue-update'], ['rest-rr-unsupported'], ['rest-update-bad'],
          ['rest-rr-malformed'], ['rest-update-late'], ['rest-bin-late'], ['rest-update-big']]
@@ -45,9 +47,9 @@ EXTRA = [['raw', 4, 1], ['raw', 3, 1], ['raw', 3, 0], ['raw', 5, 3], ['raw', 128
 def enabled(d):
     ev = d.enabled()
     if d.live():
-        ev += [list(e) for e in EXTRA[:10]]
+        ev += [list(e) for e in EXTRA[:NLIVE]]
     if d.sim.state == 'ESTABLISHED':
-        ev += [list(e) for e in EXTRA[10:]]
+        ev += [list(e) for e in EXTRA[NLIVE:]]
         ev.append(['updv'])       # a well-formed UPDATE of some family / route type: ['updv', k] = corpus body k
     return ev
 
@@ -56,6 +58,8 @@ def frame_of(d, ev):
     from vlib.driver import encode_event
     if ev[0] == 'raw':
         return rc.frame(ev[1], b'\x00' * ev[2])
+    if ev[0] == 'rrfam':      # a ROUTE-REFRESH (type 5 or 128) for a family the agent may not have advertised: still a received message
+        return rc.route_refresh(ev[1], ev[2], 0, ev[3])
     if ev[0] == 'updv':
         return rc.frame(rc.UPDATE, BODIES[ev[1] % len(BODIES)][1])
     return encode_event(d.sim, ev, d.nupd + 1)
@@ -72,7 +76,7 @@ def apply(d, mon, ev):
     sim = d.sim
     nt = False
     k = ev[0]
-    if k in ('raw', 'updv'):
+    if k in ('raw', 'updv', 'rrfam'):
         c = d.live()[0]
         data = frame_of(d, ev)
         nseg = ev[2] if k == 'updv' and len(ev) > 2 else 1       # ['updv', k, n]: the message arrives in n TCP segments
@@ -81,7 +85,7 @@ def apply(d, mon, ev):
             ok = bool(sim.reactor.peer_send(c, piece)) and ok
             sim.reactor.settle(fire_due=False)
         if ok:
-            mon.rx.setdefault(c.id, []).append((ev[1], ev[2]) if k == 'raw' else (rc.UPDATE, len(data) - 19))
+            mon.rx.setdefault(c.id, []).append((ev[1], ev[2]) if k == 'raw' else ((ev[3], 4) if k == 'rrfam' else (rc.UPDATE, len(data) - 19)))
         sim.reactor.settle(fire_due=True)
         d.history.append(ev)
     elif k == 'rest-update':
@@ -204,7 +208,7 @@ def pick(en, choice):
     weighted = []
     for ev in en:
         w = 4 if ev[0] in ('ok', 'tick', 'ka') or (ev[0] == 'open' and ev[1] == 'valid') else 1
-        if ev[0] in ('raw', 'rest-update', 'rest-rr', 'upd', 'rr', 'queue-update', 'rest-bin', 'rest-rr-unsupported', 'rest-update-bad', 'rest-rr-malformed',
+        if ev[0] in ('raw', 'rrfam', 'rest-update', 'rest-rr', 'upd', 'rr', 'queue-update', 'rest-bin', 'rest-rr-unsupported', 'rest-update-bad', 'rest-rr-malformed',
                      'rest-update-late', 'rest-bin-late', 'rest-update-big'):
             w = 2
         if ev[0] == 'stop':
@@ -310,7 +314,11 @@ SCENARIOS = [{'cfg': c, 'head': h, 'fail': f, 'span': 400}
 # internal queue is drained when a KEEPALIVE arrives) - the walks reach these only with some probability
 SCENARIOS += [{'cfg': {'hold': 180, 'idle_hold': 30, 'connect_retry': 60}, 'head': [['ok'], ['open', 'valid', 90], ['ka']] + pre + [e, ['ka'], ['ka'], e, ['ka']],
                'fail': 'refused', 'span': 0}
-              for e in EXTRA[10:] for pre in ([], [['ka']], [['updv', 0, 3]])]
+              for e in EXTRA[NLIVE:] for pre in ([], [['ka']], [['updv', 0, 3]])]
+
+
+SCENARIOS += [{'cfg': {'hold': 180, 'idle_hold': 30, 'connect_retry': 60}, 'head': [['ok'], ['open', 'valid', 90], ['ka'], e, ['ka'], e],
+               'fail': 'refused', 'span': 0} for e in EXTRA[:4]]
 
 
 def shards(tier):
